@@ -120,7 +120,9 @@ def _run(sc, r, scratch, i):
     # (b) dry run
     dcfg = dict(cfg)
     dcfg["dry_run"] = True
-    dres, dargv = dd.run_dedupe(op, dcfg, report, troot, home, target=target)
+    dcwd = r.choice([troot, troot, d, "/"])  # the dedupe command need not run where `group` ran
+    witness["dedupe_cwd"] = dcwd
+    dres, dargv = dd.run_dedupe(op, dcfg, report, dcwd, home, target=target)
     witness.update({"dry_argv": [fsd(a) for a in dargv], "dry_rc": dres.rc, "dry_stderr": dres.err_text()[-2000:],
                     "script": dres.out.decode("utf-8", "replace")[:4000]})
     sp = "%s:%s" % (_prio_sig(cfg), "+".join(sorted(k for k in cfg if k in ("name", "path", "keep_name", "keep_path"))) or "nopat")
@@ -159,7 +161,7 @@ def _run(sc, r, scratch, i):
     before = inventory.take(troot, digest=False)
     log = os.path.join(d, "shim.log")
     env = shimlog.shim_env(log, [troot] + ([target] if target else []), ficlone=(op == "dedupe"))
-    rres, rargv = dd.run_dedupe(op, cfg, report, troot, home, target=target, extra_env=env)
+    rres, rargv = dd.run_dedupe(op, cfg, report, dcwd, home, target=target, extra_env=env)
     witness.update({"real_argv": [fsd(a) for a in rargv], "real_rc": rres.rc, "real_stderr": rres.err_text()[-2000:]})
     if rres.timed_out:
         return [inconclusive("real run timed out")]
